@@ -19,17 +19,21 @@
    over the lines b..e-1 is cut into e-b cells for those lines plus one closing
    cell, the numbers listed for it are b..e-1 and one -1, and add_line_numbers
    pairs cell i with line b+i without running out of numbers
-   (C16_region_numbered, coq/proofs/HtmlNumbers.v).  Premises of the region
-   theorems that stay premises: every highlight of the region ends in front of
-   or at the start of line e (true when the text ends with a line break, which
-   the shell guarantees, and the position map holds offsets of the text; not
-   derived here), and the style strings and the escaped
-   URL hold no '<'.  The context arithmetic of generate_html (which lines a
+   (C16_region_numbered, coq/proofs/HtmlNumbers.v).  That every
+   highlight of a region ends in front of or at the start of the region's last
+   line e -- a premise of C16_region_numbered -- is derived for the regions
+   generate_html forms (C16_highlights_end_inside_their_region,
+   coq/proofs/HtmlEnds.v): for a text that ends with a line break (the shell
+   appends one) and highlights that end inside the text, through make_hdata,
+   the widening by the context, the clamp to the table and the grouping.
+   Premises of the region theorems that stay premises: the highlights end
+   inside the text (the position map holds offsets of the text, C01/C14), and
+   the style strings and the escaped URL hold no '<'.  The context arithmetic of generate_html (which lines a
    region covers) and the no-match branch are part of the executable model and
    are decided by the byte-exact correspondence run and the HTML-parsing oracle
    (see DESIGN.md). *)
 From Coq Require Import String Sorting.Permutation.
-From YV Require Import PyBase ShellMap Html HtmlProofs HtmlRegion HtmlLines HtmlCells HtmlNumbers Tables.
+From YV Require Import PyBase ShellMap Html HtmlProofs HtmlRegion HtmlLines HtmlCells HtmlNumbers HtmlEnds Tables.
 
 (* (1) protect_html is a character-wise map (the seven substitutions do not
    interfere), hence a homomorphism *)
@@ -200,6 +204,34 @@ Theorem C16_region_numbered : forall st_ stu number_style,
                    (combine (map (fun r => (render_atoms r, true)) cs) nums)).
 Proof. exact region_out_numbered. Qed.
 Print Assumptions C16_region_numbered.
+
+(* the premise "every highlight ends in front of or at the start of the
+   region's last line" of C16_region_numbered holds for every region that
+   generate_html forms, whatever the context option (>= 0), the matches and
+   the position map, when the text ends with a line break *)
+Theorem C16_highlights_end_inside_their_region :
+  forall is_alpha is_word context tex t cm ms hd,
+  tex = t ++ [c_nl] -> (0 <= context)%Z ->
+  mapR (make_hdata is_alpha is_word tex cm) ms = Ok hd ->
+  Forall (fun h => (0 <= h_end h <= zlen tex)%Z) hd ->
+  forall reg, In reg (group (map (widen context (zlen (line_starts tex))) hd) [] []) ->
+  forall en, start_at (line_starts tex) (max_endlin reg) = Ok en ->
+             Forall (fun h => (h_end h <= en)%Z) reg.
+Proof. exact regions_hold_their_highlights. Qed.
+Print Assumptions C16_highlights_end_inside_their_region.
+
+(* non-vacuity: the last line of a text, context 1 -- the clamp cuts, the
+   region ends with the table's last entry, which is the length of the text *)
+Example C16_ends_example :
+  let tex := s2l "ab" ++ [10%N] ++ s2l "cd" ++ [10%N] in
+  let h := {| h_beg := 3; h_end := 5; h_unsure := false; h_lin := 1; h_beglin := 1;
+              h_endlin := 2; h_m := {| hm_offset := 0; hm_length := 1; hm_message := [];
+                hm_ctx_text := []; hm_ctx_offset := 0; hm_ctx_length := 1; hm_rule := [];
+                hm_repls := []; hm_url := None |} |}%Z in
+  h_endlin h = (count_nl_to tex (h_end h) + 1)%Z /\
+  group [widen 1 (zlen (line_starts tex)) h] [] [] = [[widen 1 3 h]] /\
+  start_at (line_starts tex) (max_endlin [widen 1 3 h]) = Ok 6%Z.
+Proof. vm_compute. repeat split; reflexivity. Qed.
 
 (* table obligation: the style strings of /repo's genhtml.py (regenerated on
    every run) meet the premise of the region theorems *)
